@@ -87,7 +87,10 @@ ExportVerdict(net, st, e, i) ==
     ELSE IF ~e.fixed_kept THEN Viol(at \o "FixedUntouched: set of layers outside choice blocks changed")
     ELSE IF ~e.fixed_untouched THEN Viol(at \o "FixedUntouched: state of a layer outside choice blocks changed")
     ELSE IF ~e.runs THEN Viol(at \o "OutEqualHard: exported network does not run")
-    ELSE IF ~e.out_equal_hard
+    \* coefficients that tie at the logged resolution (1e-4) leave the hard selection ambiguous (the one-hot
+    \* is the arg-max of softmax(alpha / T) in float32, export takes the arg-max of alpha): any arg-max
+    \* branch is accepted above and output equality is only required without such a tie
+    ELSE IF NoTie(st.alpha) /\ ~e.out_equal_hard
         THEN Viol(at \o "OutEqualHard: output differs from the SuperNet under hard selection, winners " \o ToString(aw))
     ELSE OK
 
@@ -148,7 +151,7 @@ CostVerdict(net, st, e, i) ==
         IF f23h THEN Known(F23Text)
         ELSE Viol(at \o "HardIsArgmax: hard selection but 10^4*cost " \o ToString(obs)
                      \o " is not the cost of the arg-max branches " \o ToString(DD * ExportCost(m, net, aw, e.full)))
-    ELSE IF hardsel /\ st.expvalid /\ (~e.integral \/ e.cost10 # 10 * expc) THEN
+    ELSE IF hardsel /\ NoTie(st.alpha) /\ st.expvalid /\ (~e.integral \/ e.cost10 # 10 * expc) THEN
         IF f23h THEN Known(F23Text)
         ELSE Viol(at \o "HardIsExport: hard selection but 10*cost " \o ToString(e.cost10)
                      \o " differs from the metric measured on the exported network " \o ToString(10 * expc))
